@@ -19,6 +19,8 @@ pub struct Obs {
     pub accepting: Option<bool>,
     pub ff_bytes: Option<Vec<u8>>,
     pub ff_tokens: Vec<TokenId>,
+    /// captures as reported after all the queries above (forced bytes have been taken on both sides)
+    pub captures: Option<Vec<(String, Vec<u8>)>>,
 }
 
 pub fn observe(m: &mut MH, nv: usize) -> Obs {
@@ -32,6 +34,7 @@ pub fn observe(m: &mut MH, nv: usize) -> Obs {
             accepting: None,
             ff_bytes: None,
             ff_tokens: vec![],
+            captures: None,
         };
     }
     let stopped = m.is_stopped();
@@ -67,6 +70,7 @@ pub fn observe(m: &mut MH, nv: usize) -> Obs {
         accepting,
         ff_bytes,
         ff_tokens,
+        captures: if m.is_error() { None } else { m.captures() },
     }
 }
 
@@ -167,6 +171,17 @@ pub fn obs_diff_cap(a: &Obs, b: &Obs, la: &str, lb: &str, mask_only: bool, cap: 
             format!("{la}.ff_tokens={:?} {lb}.ff_tokens={:?}", a.ff_tokens, b.ff_tokens),
         ));
     }
+    if let (Some(x), Some(y)) = (&a.captures, &b.captures) {
+        if x != y {
+            let show = |v: &Vec<(String, Vec<u8>)>| {
+                v.iter()
+                    .map(|(k, b)| format!("{k}={:?}", String::from_utf8_lossy(b)))
+                    .collect::<Vec<_>>()
+                    .join(",")
+            };
+            return Some(("captures".into(), format!("{la}.captures=[{}] {lb}.captures=[{}]", show(x), show(y))));
+        }
+    }
     if let (Some(x), Some(y)) = (&a.ff_bytes, &b.ff_bytes) {
         if x != y {
             return Some((
@@ -244,7 +259,7 @@ impl<'a> Exec<'a> {
         }
     }
 
-    fn mh(&mut self, h: SlotId) -> &mut MH {
+    pub fn mh(&mut self, h: SlotId) -> &mut MH {
         match &mut self.slots.get_mut(&h).unwrap().h {
             H::M(m) => m,
             _ => panic!("not a matcher slot"),
@@ -542,6 +557,14 @@ impl<'a> Exec<'a> {
                     match m {
                         Ok(m) => {
                             if let Some((t, in_a)) = mask_diff(m1, &m) {
+                                // fault-injecting runs: a sibling may have driven the shared lexer out
+                                // of fuel between the two calls; with a canonical tokenizer compute_mask
+                                // then still answers (the forced-token shortcut returns before the error
+                                // check) and the limit stop surfaces on the next commit - same "in flight"
+                                // window as for the comparison with the fresh engine above
+                                if self.limit_error_latched(h) {
+                                    return self.skip("limit_error_in_flight");
+                                }
                                 return Err(self.viol(
                                     "mask_idempotent",
                                     &format!("mask_not_idempotent:{lbl}"),
